@@ -181,7 +181,7 @@ func (w *wireCtx) do(req *http.Request) (*http.Response, error) {
 	}()
 	if pan != nil {
 		w.rec.Emit(Event{"ev": "ServerPanic", "case": w.caseID, "panic": pan})
-		return nil, fmt.Errorf("server panicked")
+		return nil, fmt.Errorf("server panicked: %s", strings.SplitN(fmt.Sprint(pan), "\n", 2)[0])
 	}
 	hdr := cw.snapHdr
 	if hdr == nil {
